@@ -37,10 +37,14 @@ def _blocks():
     B.update(_EXTRA)
     # every remaining library block (constructors of the C04 table): the block's own matrix is the oracle
     for name, (ctor, params) in c04.BLOCKS.items():
-        if name in B or name.startswith(("UserWaveguide", "PolRot", "FPRGaussian")) or name.endswith("_expanded"):
+        if name in B or name.startswith(("UserWaveguide_", "PolRot", "FPRGaussian")) or name.endswith("_expanded"):
             continue       # already carry modes / are expansions / too slow for the quick tier
         B[name] = dict(gen=(lambda r, ints, ps=tuple(params): {q: 1.0 + r.randint(0, 64) / 64.0 for q in ps}),
                        make=(lambda a, c=ctor: c()), kw=(lambda a: dict(a)))
+    # a user waveguide declared WITHOUT modes (it has the ports a0, b0 and may be expanded like any block)
+    B["UserWaveguide_plain"] = dict(gen=(lambda r, ints: {"wl": 1.0 + r.randint(0, 64) / 64.0, "T": r.randint(0, 64) / 64.0}),
+                                    make=(lambda a: lk.UserWaveguide(2.5, c04.uw_index, {"wl": 1.0, "T": 1.0})),
+                                    kw=(lambda a: dict(a)))
     return B
 
 
@@ -106,7 +110,9 @@ class ExpandStream(Stream):
         n = 160 if tier == "quick" else 3000
         out = []
         B = _blocks()
-        names = sorted(b for b in B if b not in ("PolRot", "UserWaveguide"))   # these already carry modes: expand_mode rejects them
+        # PolRot and the C09 table's UserWaveguide (declared with modes) already carry modes: expand_mode rejects them;
+        # the mode-less UserWaveguide of the C04 table is expanded like any other block
+        names = sorted(b for b in B if b not in ("PolRot", "UserWaveguide"))
         while len(out) < n:
             nm = rng.choice([1, 2, 2, 3, 3, 4, 5])
             modes = rng.sample(MODE_POOL, nm)
